@@ -25,7 +25,7 @@ class Cfg:
                  concat=True, case=True, cast=True, star=True, max_tables=3, qualifier_spelling=None,
                  exists=True, in_subselect=True, expr_depth=2, column_aliases=True, nulls_order=True,
                  scalar_functions=True, cross_place_subselect=True, shadow_aliases=(), qualified_columns=False,
-                 extra_places=None, order_by_source=False, subselect_multi=True):
+                 extra_places=None, order_by_source=False, subselect_multi=True, concat_arith=False):
         self.places = places or {}            # table -> qualifier (integration) or None
         self.tables = tables or sorted(SCHEMA)
         self.always_alias = always_alias
@@ -43,6 +43,7 @@ class Cfg:
         self.limit_needs_total_order = limit_needs_total_order
         self.distinct = distinct
         self.division = division
+        self.concat_arith = concat_arith      # `||` next to arithmetic (its rank differs between engines)
         self.concat = concat
         self.case = case
         self.cast = cast
@@ -142,6 +143,11 @@ class Gen:
             if op in '/%':
                 self.tags.add('op:div')
             self.tags.add('op:arith')
+            if self.chance(1, 4):
+                # an operator of the same rank on the right: the grouping that associativity does not give for free
+                op2 = self.pick([o for o in ops if (o in '+-') == (op in '+-')])
+                self.tags.add('op:right-nested')
+                return f'({self.int_expr(scope, depth - 1)} {op} ({self.int_expr(scope, 0)} {op2} {self.int_expr(scope, 0)}))'
             return f'({self.int_expr(scope, depth - 1)} {op} {self.int_expr(scope, depth - 1)})'
         if kind == 'neg':
             self.tags.add('op:neg')
@@ -173,7 +179,15 @@ class Gen:
                 kinds += ['upper', 'coalesce']
             if self.cfg.concat:
                 kinds.append('concat')
+                if self.cfg.concat_arith:
+                    kinds.append('concat-arith')
         kind = self.pick(kinds)
+        if kind == 'concat-arith':
+            self.tags.add('op:concat-arith')
+            ar = f'({self.int_expr(scope, 0)} {self.pick(["+", "-", "*"])} {self.int_expr(scope, 0)})'
+            if self.chance(1, 2):
+                return f'({self.text_expr(scope, 0)} || {ar})'
+            return f'({ar} || {self.text_expr(scope, 0)})'
         if kind == 'col':
             return self.pick(cols)
         if kind == 'const':
